@@ -488,6 +488,8 @@ class PE:
             return [(False, p)]
         if isinstance(l, Obj) and isinstance(r, Obj):
             return [(l.oid == r.oid, p)]
+        if (isinstance(l, (Lst, Dct, Tup)) and isinstance(r, Sym)) or (isinstance(r, (Lst, Dct, Tup)) and isinstance(l, Sym)):
+            return [(False, p)]  # a container built on this path is not a pre-existing named object
         if not isinstance(l, Sym) and isinstance(r, Sym):
             l, r = r, l
         var, c = show(l), show(r)
